@@ -44,4 +44,29 @@ LEVEL["C16"] = dict(technique=T, text="Fault mode of the durability contract: wi
     "one flush/sync runs; if it answers ok a snapshot must equal the ideal map (C16.reported), all reads afterwards equal the contract (C16.view), and after "
     "the limit is lifted the next flush must be ok and its snapshot equal the ideal map (C16.recover). Thresholds sweep 0..beyond the file ends incl. header "
     "and 128 KiB chunk borders for three workload shapes so that each of the three files is in turn the first to fail.", note=TRUST + " Kernel semantics of RLIMIT_FSIZE.")
+LEVEL["C07"] = dict(technique=T, text="The contract layer has no parameter at all: the same seeded history is executed under several configurations (bucket parameter "
+    "BucketsSize/Capacity 1..65536/Default x Size/PerMille/Auto buffers per file, with enough data to pass several buffer chunks and force eviction) and every "
+    "configuration must agree with the ONE model, event by event; the stored bucket count must equal BucketsFromParam (AbyLayout) of the creation parameter "
+    "for ever (C07.n) and a reopen with other parameters must yield the stored contents (C07.reopen). The PerMille(<1000) hang in the rabuf dependency is a "
+    "known finding with its own scenario.", note=TRUST)
+LEVEL["C10"] = dict(technique=T, text="AbyCodec transcribes the u64/i64 little-endian and vu64 encodings on 16-bit limbs; TLC evaluates, for every logged conversion (all width "
+    "boundaries +-1, single bits, extremes, random), bytes = codec(int), by-value = by-reference, back = int (C10.conv_*). Typed maps are driven through the "
+    "integer API with keys that share low bytes / low 56 bits / differ in the sign bit, in 1- and 2-bucket tables, and validated against the ideal map keyed "
+    "by the integer; decoded images must contain exactly the codec's bytes.", note=TRUST)
+LEVEL["C11"] = dict(technique=T, text="The contract state of the trace specification is a function map-id -> ideal map; every handle (clone, repeated lookup, lookup through a cloned "
+    "database handle, with other parameters) denotes its name. Interleaved histories over 2-5 maps of mixed key types (names incl. ones that differ only "
+    "behind a dot) are validated per map; the file digests of the maps not operated on are compared across the others' updates (C11.others).", note=TRUST)
+LEVEL["C13"] = dict(technique=T, text="Contract: an open is accepted iff the three files carry the format signature and the signature of the requested key type; otherwise it must "
+    "fail (error or panic) and the files stay byte-identical (C13.refused, C13.unchanged). All 20 ordered pairs of key types, files of another type swapped "
+    "in for each of the three files, every one of the 16 signature bytes of each file mutated (quick: 4 values each, thorough: all 255), and foreign files "
+    "shorter/longer than a header, each opened in a fresh process. The shared signature of u64 and vu64 is a known finding.", note=TRUST)
+LEVEL["C14"] = dict(technique=T, text="AbyMap defines the bulk calls element-wise (MGetAll, MDelAll, MPutAll) and the string variants through a lossy-decoding table; random batches "
+    "(0..200 keys, any order, present/absent, repeats where the property allows them) are spliced into histories on all key types and every result and "
+    "the contents afterwards are compared by TLC (C14.bulk_get, C14.bulk_delete, C14.string_variant, C02.content).", note=TRUST + " Lossy decoding is exercised with 0xFF bytes only.")
+LEVEL["C15"] = dict(technique=T, text="Read actions leave the contract state unchanged; for every state class (empty, emptied, dense, sparse) x 12 table sizes (incl. n < 8 and the "
+    "sizes where the bitmap scan reads behind the table) a session of read-only calls only (get/includes of present and absent keys, len, bulk_get, all "
+    "iterators, statistics, read_fill_buffer, flush/sync) is run between two closes and the digests and lengths of the three files must be equal (C15.bytes).", note=TRUST)
+LEVEL["C18"] = dict(technique=T, text="The design layer is a function of (state, operation) by construction (no choice in any update operator; TLC explores one successor per label). "
+    "Each generated history is executed twice: replica A plainly, replica B in another process and directory with read-only calls (incl. traversals of "
+    "empty and sparse small tables) spliced in; the digests of the three files after close must be equal (C18.equal).", note=TRUST)
 NA = {}
